@@ -319,7 +319,7 @@ def parse_iov(s):
 class Check(DiffCheck):
     id = 'C12'
     coq_dirs = ['Base', 'C12']
-    coq_targets = ['C12/C12_Mem.vo', 'C12/C12_MemC.vo', 'C12/C12_Iov.vo', 'C12/C12_Deser.vo', 'C12/C12_Walk.vo', 'C12/C12_Flat.vo', 'C12/C12_Proofs.vo', 'C12/C12_Sep.vo', 'C12/C12_Wire.vo', 'C12/C12_RtD.vo', 'C12/C12_RtS.vo', 'C12/C12_Rt.vo', 'C12/C12_RtC.vo', 'C12/C12_RtC2.vo', 'C12/C12_RtC3.vo', 'C12/C12_Hx.vo', 'C12/C12_View.vo', 'C12/C12_Hb.vo', 'C12/C12_Hb2.vo']
+    coq_targets = ['C12/C12_Mem.vo', 'C12/C12_MemC.vo', 'C12/C12_Iov.vo', 'C12/C12_Deser.vo', 'C12/C12_Walk.vo', 'C12/C12_Flat.vo', 'C12/C12_Proofs.vo', 'C12/C12_Sep.vo', 'C12/C12_Wire.vo', 'C12/C12_RtD.vo', 'C12/C12_RtS.vo', 'C12/C12_Rt.vo', 'C12/C12_RtC.vo', 'C12/C12_RtC2.vo', 'C12/C12_RtC3.vo', 'C12/C12_Hx.vo', 'C12/C12_View.vo', 'C12/C12_Hb.vo', 'C12/C12_Hb2.vo', 'C12/C12_RtI.vo', 'C12/C12_Crc.vo', 'C12/C12_Ord.vo']
     properties_v = 'C12/C12_Properties.v'
     extract_v = 'C12/C12_Extract.v'
     runner_ml = 'ocaml/C12_run.ml'
